@@ -572,6 +572,15 @@ func (e *SpecEnv) evalCall(x *ast.CallExpr) Val {
 		return r
 	case "old":
 		return e.inOld().eval(x.Args[0])
+	case "genIdx":
+		f := arg(0)
+		g, ok := e.st.ghost["genIdx"]
+		if !ok {
+			specFail("genIdx: no generator index in this state")
+		}
+		return e.run.valOfSort(sx("select", g.T, e.run.coerce(e.st, f, "Fn", "genIdx")), idxSort)
+	case "zeroIdx":
+		return e.run.valOfSort(zeroIdx, idxSort)
 	case "ver":
 		id, ok := x.Args[0].(*ast.Ident)
 		lit, ok2 := x.Args[1].(*ast.BasicLit)
